@@ -181,6 +181,20 @@ def Reg.get (r : Reg) (sid pk : Bytes) (now : Nat) : Reg × Option Entry × List
     else if checkPrincipal ∧ e.pkey ≠ pk then (r, none, [])
     else (r, some e, [])
 
+/-- `_SessionRegistry.is_live`: is `e` still the registered entry of `sid`? -/
+def Reg.isLive (r : Reg) (sid : Bytes) (e : Entry) : Bool := r.find sid == some e
+
+/-- does `process_request` re-validate the entry once it holds the entry lock? -/
+def revalidates : Bool := Sticky.validateSteps.contains "revalidate"
+
+/-- lookup as `process_request` does it: `get`, acquire the entry lock, `is_live` re-validation (a miss releases the lock and
+is answered `session_lost`).  Sequentially nothing can end the session in between (`Reg.getLive_eq` in `Lemmas/Sticky`);
+the interleavings are C26's. -/
+def Reg.getLive (r : Reg) (sid pk : Bytes) (now : Nat) : Reg × Option Entry × List Nat :=
+  match r.get sid pk now with
+  | (r', some e, cl) => if revalidates && !(r'.isLive sid e) then (r', none, cl) else (r', some e, cl)
+  | x => x
+
 /-- `_SessionRegistry.close` -/
 def Reg.close (r : Reg) (sid : Bytes) : Reg × Bool × List Nat :=
   match r.find sid with
@@ -273,7 +287,7 @@ def resolve {Wire : Type} [DecidableEq Wire] (C : Codec Wire) (cfg : Cfg) (W : W
     | .ok (serverId, sid, _expires) =>
       if checkServerId ∧ asciiReplaceUtf8 serverId ≠ cfg.serverId then (W, .lost)
       else
-        match W.reg.get sid (pkey rq.ident) W.env.now with
+        match W.reg.getLive sid (pkey rq.ident) W.env.now with
         | (reg', none, cl) => ({ W with reg := reg', closedLog := W.closedLog ++ cl }, .lost)
         | (reg', some e, cl) => ({ W with reg := reg', closedLog := W.closedLog ++ cl }, .resumed e)
 
@@ -332,7 +346,8 @@ def stepActionP (openResetsClosed : Bool) (cfg : Cfg) (wk : Nat) (ident : Identi
     | some (sid, _) =>
       let (reg', hit, cl) := W.reg.close sid
       ({ W with reg := reg', closedLog := W.closedLog ++ cl },
-       { rs with sc := none, lockHeld := none, closed := Sticky.sinkCloseSetsClosed || rs.closed,
+       { rs with sc := none, lockHeld := if Sticky.closeSessionReleasesLock then none else rs.lockHeld,
+                 closed := Sticky.sinkCloseSetsClosed || rs.closed,
                  mint := if Sticky.sinkCloseClearsMint then none else rs.mint },
        .closed hit)
   | .use => (W, rs, .used (rs.sc.map (·.2)))
